@@ -22,6 +22,10 @@ Local Open Scope nat_scope.
      sched_diamond                in every reachable state the steps of two different threads commute
      sched_parallel_step          pairwise different threads that can all move in a reachable state may move
                                   simultaneously: fired in any order they all succeed and reach the same state
+     sched_fine_deterministic, sched_fine_refines, sched_fine_terminates, sched_fine_no_deadlock
+                                  the same at the granularity of single loads, multiplications and additions (a worker
+                                  iteration = four transitions): every fine step is a coarse step or a stutter, every
+                                  maximal fine execution has exactly 4 len + 3t + 2 steps and returns pardot t v w
      sched_refines_run_sched      the order in which the workers finish along a maximal execution is a permutation
                                   sigma, and main returns run_sched sigma (the coarse scheduler of round one)
      sched_realises_every_order   conversely every permutation is the completion order of some maximal execution
@@ -54,7 +58,7 @@ Local Open Scope nat_scope.
                                   the sequential dot (bit for bit).
    --------------------------------------------------------------------------------------------------------------- *)
 From OV Require Import Model.ParSched Proofs.ParSched Proofs.ParSchedOrder Proofs.ParSchedReal Proofs.ParSchedConfl
-  Proofs.ParSchedRefuted Proofs.ParSchedFloat Proofs.ParSchedTop Proofs.ParSchedMore Proofs.ParSchedWorkers Proofs.ParSchedShared.
+  Proofs.ParSchedRefuted Proofs.ParSchedFloat Proofs.ParSchedTop Proofs.ParSchedMore Proofs.ParSchedWorkers Proofs.ParSchedShared Proofs.ParSchedFine.
 
 Theorem sched_deterministic : forall (A : Arith) (v w : list A) t s0 n s,
   par_program v w t = Ok s0 -> steps v w t n s0 s -> terminal v w t s ->
@@ -145,6 +149,48 @@ Check sched_parallel_step : forall (A : Arith) (v w : list A) t s0 n s l l',
   NoDup l -> (forall th, In th l -> exists s1, fire v w t th s = Some s1) -> Permutation l l' ->
   exists s', exec v w t l s = Some s' /\ exec v w t l' s = Some s'.
 Print Assumptions sched_parallel_step.
+
+Theorem sched_fine_deterministic : forall (A : Arith) (v w : list A) t sch s, 1 <= t -> length v = length w ->
+  exec_fine v w t sch (fine_init t) = Some s -> terminal_fine v w t s ->
+  length sch = 4 * length v + 3 * t + 2 /\ f_main s = MRet (pardot t v w).
+Proof. intros A v w t sch s Ht Hl HE HT. exact (sched_fine_deterministic_exec v w t Ht Hl sch s HE HT). Qed.
+Check sched_fine_deterministic : forall (A : Arith) (v w : list A) t sch s, 1 <= t -> length v = length w ->
+  exec_fine v w t sch (fine_init t) = Some s -> terminal_fine v w t s ->
+  length sch = 4 * length v + 3 * t + 2 /\ f_main s = MRet (pardot t v w).
+Print Assumptions sched_fine_deterministic.
+
+(* non-vacuity, binary64: after the three spawns the three workers advance in lock step, one micro-step each in turn
+   (load, load, multiply, add, publish): 4*3 + 3*3 + 2 = 23 steps *)
+Example sched_fine_deterministic_nonvacuous :
+  1 <= 3 /\ length cx_v = length cx_w /\ length cx_fine = 23 /\
+  exists s, exec_fine cx_v cx_w 3 cx_fine (fine_init 3) = Some s /\ terminal_fine cx_v cx_w 3 s /\
+            f_main s = MRet (pardot (A := AF) 3 cx_v cx_w).
+Proof. exact cx_fine_execution. Qed.
+
+Theorem sched_fine_refines : forall (A : Arith) (v w : list A) t sch s, 1 <= t -> length v = length w ->
+  exec_fine v w t sch (fine_init t) = Some s ->
+  exists sch', exec v w t sch' (sched_init t) = Some (abs_state s) /\ length sch' <= length sch.
+Proof. intros A v w t sch s Ht Hl HE. exact (sched_fine_refines_lemma v w t sch s Ht Hl HE). Qed.
+Check sched_fine_refines : forall (A : Arith) (v w : list A) t sch s, 1 <= t -> length v = length w ->
+  exec_fine v w t sch (fine_init t) = Some s ->
+  exists sch', exec v w t sch' (sched_init t) = Some (abs_state s) /\ length sch' <= length sch.
+Print Assumptions sched_fine_refines.
+
+Theorem sched_fine_terminates : forall (A : Arith) (v w : list A) t sch s, 1 <= t -> length v = length w ->
+  exec_fine v w t sch (fine_init t) = Some s -> length sch <= 4 * length v + 3 * t + 2.
+Proof. intros A v w t sch s Ht Hl HE. exact (sched_fine_bounded_exec v w t Ht Hl sch s HE). Qed.
+Check sched_fine_terminates : forall (A : Arith) (v w : list A) t sch s, 1 <= t -> length v = length w ->
+  exec_fine v w t sch (fine_init t) = Some s -> length sch <= 4 * length v + 3 * t + 2.
+Print Assumptions sched_fine_terminates.
+
+Theorem sched_fine_no_deadlock : forall (A : Arith) (v w : list A) t sch s, 1 <= t -> length v = length w ->
+  exec_fine v w t sch (fine_init t) = Some s ->
+  (exists th s', fire_fine v w t th s = Some s') \/ f_main s = MRet (pardot t v w).
+Proof. intros A v w t sch s Ht Hl HE. exact (sched_fine_no_deadlock_exec v w t Ht Hl sch s HE). Qed.
+Check sched_fine_no_deadlock : forall (A : Arith) (v w : list A) t sch s, 1 <= t -> length v = length w ->
+  exec_fine v w t sch (fine_init t) = Some s ->
+  (exists th s', fire_fine v w t th s = Some s') \/ f_main s = MRet (pardot t v w).
+Print Assumptions sched_fine_no_deadlock.
 
 Theorem sched_refines_run_sched : forall (A : Arith) (v w : list A) t s0 sch s,
   par_program v w t = Ok s0 -> exec v w t sch s0 = Some s -> terminal v w t s ->
